@@ -546,6 +546,24 @@ pub fn corpus(o: &Opts) -> Res<()> {
             put(&m);
         }
     }
+    // well-formed messages in which one fixed-size byte string has every length around its size: ids (20), compact node lists
+    // (26 / 38 per entry), compact peers (6 / 18), tokens
+    let bytes = |n: usize| -> Vec<u8> { (0..n).map(|i| (i * 7 + 3) as u8).collect() };
+    for n in 0..=90usize {
+        let resp = |k: &str, v: B| benc::dict(vec![("r", benc::dict(vec![("id", B::b(&bytes(20))), (k, v)])), ("t", B::b(b"aa")), ("y", B::s("r"))]).to_vec();
+        put(&resp("nodes", B::b(&bytes(n))));
+        put(&resp("nodes6", B::b(&bytes(n))));
+        if n <= 40 {
+            put(&resp("values", B::List(vec![B::b(&bytes(6)), B::b(&bytes(n))])));
+            put(&resp("token", B::b(&bytes(n))));
+            put(&benc::dict(vec![("r", benc::dict(vec![("id", B::b(&bytes(n)))])), ("t", B::b(b"aa")), ("y", B::s("r"))]).to_vec());
+            for (q, key) in [("ping", "id"), ("find_node", "target"), ("get_peers", "info_hash"), ("announce_peer", "token")] {
+                let mut a = vec![("id", B::b(&bytes(20))), ("info_hash", B::b(&bytes(20))), ("port", B::Int(1)), ("target", B::b(&bytes(20))), ("token", B::b(&bytes(20)))];
+                for kv in a.iter_mut() { if kv.0 == key { kv.1 = B::b(&bytes(n)); } }
+                put(&benc::dict(vec![("a", benc::dict(a)), ("q", B::s(q)), ("t", B::b(b"aa")), ("y", B::s("q"))]).to_vec());
+            }
+        }
+    }
     put(b"d1:t99999999999:");
     put(b"d1:t1000000000:");
     // random byte flips / splices of the seeds
